@@ -1,0 +1,45 @@
+// Copyright 2026 SCION Association
+//
+// Licensed under the Apache License, Version 2.0 (the "License");
+// you may not use this file except in compliance with the License.
+// You may obtain a copy of the License at
+//
+//   http://www.apache.org/licenses/LICENSE-2.0
+//
+// Unless required by applicable law or agreed to in writing, software
+// distributed under the License is distributed on an "AS IS" BASIS,
+// WITHOUT WARRANTIES OR CONDITIONS OF ANY KIND, either express or implied.
+// See the License for the specific language governing permissions and
+// limitations under the License.
+
+//go:build verif
+
+package udpip
+
+import (
+	"github.com/scionproto/scion/router"
+)
+
+// VerifInternalProcess runs the internal link's own packet processing (the STUN path) on a
+// packet whose Link is the given internal link. It returns false if link is not an internal link.
+func VerifInternalProcess(link router.Link, p *router.Packet) (bool, error) {
+	il, ok := link.(*internalLink)
+	if !ok {
+		return false, nil
+	}
+	return true, il.processPacket(p)
+}
+
+// VerifComputeProcID exposes computeProcID.
+func VerifComputeProcID(data []byte, numProcRoutines int, hashSeed uint32) (uint32, bool) {
+	return computeProcID(data, numProcRoutines, hashSeed)
+}
+
+// VerifInternalDispatch returns the dispatched-port parameters held by an internal link.
+func VerifInternalDispatch(link router.Link) (start, end, redirect uint16, ok bool) {
+	il, ok := link.(*internalLink)
+	if !ok {
+		return 0, 0, 0, false
+	}
+	return il.dispatchStart, il.dispatchEnd, il.dispatchRedirect, true
+}
